@@ -520,7 +520,12 @@ pub fn eval(expr: Node) -> Result<Number, Box<dyn error::Error>> {
                                 Number::Float(f) => f,
                                 Number::Integer(i) => i as f64,
                             };
-                            if lf64 < rf64 {
+                            // two Integers are compared exactly: above 2^53 their doubles may coincide
+                            let keep_left = match (&l, &r) {
+                                (Number::Integer(a), Number::Integer(b)) => a < b,
+                                _ => lf64 < rf64,
+                            };
+                            if keep_left {
                                 result = Some(l);
                             } else {
                                 result = Some(r);
@@ -554,7 +559,12 @@ pub fn eval(expr: Node) -> Result<Number, Box<dyn error::Error>> {
                                 Number::Float(f) => f,
                                 Number::Integer(i) => i as f64,
                             };
-                            if lf64 > rf64 {
+                            // two Integers are compared exactly: above 2^53 their doubles may coincide
+                            let keep_left = match (&l, &r) {
+                                (Number::Integer(a), Number::Integer(b)) => a > b,
+                                _ => lf64 > rf64,
+                            };
+                            if keep_left {
                                 result = Some(l);
                             } else {
                                 result = Some(r);
